@@ -57,6 +57,107 @@ def fmt_is_lossless(fmt):
     return all(c not in CODE_LETTERS + "\\*@" for k, c in toks if k == "lit")
 
 
+WIDTH = {"2D": 2, "2M": 2, "4Y": 4, "2h": 2, "2m": 2, "2s": 2, "3z": 3}
+FIELD = {"4Y": 0, "2M": 1, "2D": 2, "2h": 3, "2m": 4, "2s": 5, "3z": 6}
+
+
+def py_print(fmt, t):
+    """what the property calls the written timestamp: the text of stamp t under a lossless format (independent of ObsTime.__str__)"""
+    return "".join(("%0*d" % (WIDTH[c], t[FIELD[c]])) if k == "code" else c for k, c in fmt_tokens(fmt))
+
+
+def py_parse(fmt, s):
+    """the stamp whose text under the lossless format `fmt` is s ([Y, M, D, h, m, s, ms], fields the format omits as in
+    ObsTime()), or None when s is not the text of a stamp under fmt"""
+    t, i = [1970, 1, 1, 0, 0, 0, 0], 0
+    for k, c in fmt_tokens(fmt):
+        if k == "code":
+            w = s[i:i + WIDTH[c]]
+            if len(w) != WIDTH[c] or not w.isdigit() or not w.isascii():
+                return None
+            t[FIELD[c]] = int(w); i += WIDTH[c]
+        else:
+            if s[i:i + 1] != c:
+                return None
+            i += 1
+    return t if i == len(s) else None
+
+
+def valid_stamp(t):
+    return 1970 <= t[0] <= 9999 and 1 <= t[1] <= 12 and 1 <= t[2] <= mdays(t[0], t[1]) and t[3] < 24 and t[4] < 60 and t[5] < 60 and t[6] < 1000
+
+
+def twin_fmt(fmt, rng):
+    """a format with the same literals and the same widths in which the two-character codes are permuted (2D/2M/4Y vs
+    2M/2D/4Y, 2h:2m:2s vs 2s:2m:2h, ...): every text written under one is, as a string, a candidate text under the other"""
+    toks = fmt_tokens(fmt)
+    two = [c for k, c in toks if k == "code" and WIDTH[c] == 2]
+    perm = list(two)
+    for _ in range(10):
+        mode = rng.choice(["DM", "DM", "hms", "all"])
+        grp = [c for c in two if (c[1] in "DM" if mode == "DM" else c[1] in "hms" if mode == "hms" else True)]
+        sh = list(grp)
+        rng.shuffle(sh)
+        m = dict(zip(grp, sh))
+        perm = [m.get(c, c) for c in two]
+        if perm != two:
+            break
+    it = iter(perm)
+    return "".join((next(it) if WIDTH[c] == 2 else c) if k == "code" else c for k, c in toks)
+
+
+# ---- analytical feature values: JSON form in a case -> Python value, protocol token, text the writer prints
+# int | ["D", n, d] (the float n/10^d) | ["S", text] | ["nan"] | ["inf", neg]
+def af_py(v):
+    if isinstance(v, int):
+        return v
+    if v[0] == "D":
+        return float(Fraction(v[1], 10 ** v[2]))
+    if v[0] == "S":
+        return v[1]
+    if v[0] == "nan":
+        return float("nan")
+    return float("-inf") if v[1] else float("inf")
+
+
+def af_tok(v):
+    if isinstance(v, int):
+        return str(v)
+    if v[0] == "D":
+        return "D%d:%d" % (v[1], v[2])
+    if v[0] == "S":
+        return "S" + hx(v[1])
+    if v[0] == "nan":
+        return "nan"
+    return "-inf" if v[1] else "inf"
+
+
+def af_canon(x):
+    """what the reader stored, in the JSON form of the model's reply"""
+    if isinstance(x, str):
+        return ["S", x]
+    x = float(x)
+    if x != x:
+        return ["nan"]
+    if x in (float("inf"), float("-inf")):
+        return ["inf", x < 0]
+    return x
+
+
+def af_model(tok):
+    if tok == "nan":
+        return ["nan"]
+    if tok in ("inf", "-inf"):
+        return ["inf", tok == "-inf"]
+    if tok.startswith("S"):
+        return ["S", unhx(tok[1:])]
+    return dec_float(tok)
+
+
+AF_NAMES = ["af0", "af1", "speed", "k&", "abs_curv", "hdop", "A", "n&", "time", "E", "ele", "&"]
+AF_STRS = ["abc", "x1", "N/A", "run", "\"q\"", "a b", "walk/bike", "é", "1;2", "", " pad ", "#c", "12a", "nan", "-Inf", "True"]
+
+
 def dec_float(tok):
     """'m/d' (mantissa, decimals) -> the float Python's float() gives for that decimal literal"""
     m, d = tok.split("/")
@@ -90,43 +191,64 @@ class P(Prop):
         (M, "TV.C13.fixed_padded_roundtrip", "float() of the unstripped \"{:w.df}\" text (GPX attributes) is the printed decimal"),
         (M, "TV.C13.columns_roundtrip", "ids a bijection onto 0..k-1 => __printInOrder writes the datum with id j in column j (then the features) and the reader's fields[id_X] finds X"),
         (M, "TV.C13.validIds_iff", "the valid id assignments are exactly the 2+6+6+24 permutation layouts"),
-        (M, "TV.C13.row_roundtrip", "a data line written by writeToFile (any valid layout, any feature columns, separator not a number character, lossless time format avoiding the separator) is read back by __readFromCsv as the same observation"),
+        (M, "TV.C13.row_roundtrip", "a data line written by writeToFile (any valid layout, any feature columns of int / float / str / nan values whose text is one field, separator not a number character, lossless time format avoiding the separator) is read back by __readFromCsv as the same observation"),
         (M, "TV.C13.csv_file_roundtrip", "whole file: writeToFile(h) - data lines, preceded for h>0 by the three comment lines #srid/#ref point/#column names - then readFromCsv(h=hr) returns the same observations in the same order for every hr up to the number of header lines written (0 for h=0, else 3)"),
         (M, "TV.C13.csv_file_roundtrip_matching", "the matching call: written with the flag h in {0,1} and read with h=h, every observation comes back"),
         (M, "TV.C13.csv_header_block_roundtrip", "reader side of the header option: `header` first lines of any content, comment lines, then the data lines are read as exactly the observations"),
+        (M, "TV.C13.writeToCsv_roundtrip", "the front end TrackWriter.writeToCsv(track, path, TrackFormat) writes what writeToFile writes with the format's ids, separator and header: the file is read back as the same observations"),
+        (M, "TV.C13.writeToCsv_collection_roundtrip", "writeToCsv(collection, dir, TrackFormat) = writeToFiles: one file per track, each read back as its track"),
+        (M, "TV.C13.csv_read_all_roundtrip", "feature columns: a file written with its header block and af_names, values of any kind (int, float, str, nan, inf), is read back by readFromCsv(h=0|1|2, read_all=True) as the same observations, the same feature names in order, and per observation the values expAF(name, value)"),
+        (M, "TV.C13.read_all_values", "what expAF is: int -> the same number, float n/10^d -> the printed decimal (value n/10^d), nan/inf -> themselves, a non-numeric string without quotes -> itself; names ending in & keep the text; ints and floats are always writable as one column"),
         (M, "TV.C13.time_roundtrip", "readTimestamp(str(t)) gives back the fields named by a format of distinct full-width codes, for every stamp that fits the widths"),
         (M, "TV.C13.time_roundtrip_suffix", "the same when text follows the printed stamp (the Z of a GPX <time>)"),
         (M, "TV.C13.time_roundtrip_full", "with the six calendar codes the calendar part is read back identically"),
         (M, "TV.C13.fits_of_wf", "every well-formed ObsTime before year 10000 fits the widths"),
-        (M, "TV.C13.wkt_roundtrip", "parseWkt(track.toWKT()) returns the same vertices in the same order for every non-empty lattice track"),
+        (M, "TV.C13.wkt_roundtrip", "parseWkt(track.toWKT()) returns the same vertices in the same order for every non-empty lattice track in ENU, Geo or ECEF coordinates"),
         (M, "TV.C13.repr_value", "float(str(n/10^d)) has the value n/10^d (trailing zeros trimmed)"),
         (M, "TV.C13.network_row_roundtrip", "an edge line written by writeToCsv is split by csv.reader into its five fields and rebuilt by readLineAndAddToNetwork as the same edge"),
         (M, "TV.C13.net_file_roundtrip", "whole network file: h=1/header=1 and h=0/header=0 both return all edges in order"),
         (M, "TV.C13.gpx_file_roundtrip", "the body writeToGpx writes for a track is read by the trk scanner, with an ISO read format, as one track with the same points in order (elevation only for geographic coordinates)"),
+        (M, "TV.C13.gpx_af_file_roundtrip", "the same for writeToGpx(af=True): the reader skips the <extensions> block of every point (one <name>value</name> line per feature, none of which closes the block itself), the points come back unchanged whatever the features are called"),
+        (M, "TV.C13.gpx_af_names_ok", "every feature name without < > newline, not starting with / and other than 'extensions', with a value text without < and newline, is fine for gpx_af_file_roundtrip - time, ele, trk, trkpt included"),
+        (M, "TV.C13.reread_roundtrip", "a timestamp text read under ANY lossless read format f2 gives the stamp whose text under f2 it is - whatever format it was printed with and whatever was read before (the oracle clause of the reread / twin-format sessions)"),
         (M, "TV.C13.gpx_read_formats", "'4Y-2M-2DT2h:2m:2s' with or without Z reads the stamps the GPX writer prints, calendar part unchanged"),
         (M, "TV.C13.written_precision_partial", "on the decimal lattice the printed coordinate and what float() reads denote the same number (format()'s rounding of arbitrary doubles not covered)"),
     ]
     partial = ["written_precision_partial: proves exact read-back on the 10^-d lattice; missing: Python's format()/float() rounding on arbitrary doubles (sampled: 'fix' stream, byte-for-byte file comparison, off-lattice tracks)"]
-    open_statements = ["sessions (several operations sharing the global ObsTime formats) are not modelled as such: every round trip of a session is modelled "
-                       "independently with the session's format, and the oracle additionally requires every library call to leave the global read/print "
-                       "formats as it found them",
+    open_statements = ["sessions: every operation of a session is modelled on its own, with the read / print formats in force when it runs (they move with the setfmt "
+                       "operations and mid_print); the hidden state of the library (class-level formats, memo tables, counters) is not part of the model: that no call "
+                       "leaves such state behind is checked by the session streams (global formats compared after every library call, the same texts read under twin "
+                       "formats, several readers of one file), not proved",
                        "the string-level find/replace loops of ObsTime.__str__ and __precompileReadFmt are modelled on the tokenised format (codes recognised left to right); "
                        "equivalence with the string algorithm for formats whose literals are not code letters is checked by correspondence only",
-                       "read_all feature columns (named by the last header line) are not modelled on the reader side"]
-    modelled = ("TrackWriter.writeToFile (O list, sort, __printInOrder, float formats), TrackReader.__readFromCsv (data loop, header/comment "
-                "skipping, field extraction, no-data rule; read_all not modelled), ObsTime.__str__/__precompileReadFmt/readTimestamp/__fillMember "
+                       "read_all: proved for reader header counts 0, 1, 2; hr = 3 (the names line consumed by the header loop, with its newline) is covered by "
+                       "correspondence only; float() of exponent forms / digit-group underscores in a feature column is outside the model (the generator avoids them)",
+                       "TrackReader.parseWkt on POLYGON / MULTIPOLYGON texts (never written by tracklib) is modelled and compared on hand-made texts, without a theorem",
+                       "readFromCsv's no_data_value and com arguments keep their defaults (-999999, '#'); `com` is ignored by the library anyway (TrackFormat reads the key 'cmt')"]
+    modelled = ("TrackWriter.writeToFile (O list, sort, __printInOrder, float formats, feature columns with int / float / str / nan / inf values), "
+                "TrackReader.__readFromCsv (data loop, header/comment skipping, field extraction, no-data rule; read_all: name_non_special through the "
+                "header and comment lines, feature creation from the last line's fields, the second pass with its raw first line, float()/str values, names "
+                "ending in &), ObsTime.__str__/__precompileReadFmt/readTimestamp/__fillMember "
                 "(tokenised format, no '*' wildcard), NetworkWriter.writeToCsv, NetworkReader.readFromFile + readLineAndAddToNetwork + "
-                "wktLineStringToObs + Network.addNode order, Track.toWKT, TrackReader.parseWkt (LINESTRING), TrackWriter.writeToGpx body, "
-                "TrackReader.__readFromGpx (type trk, as per-tag steps gpxPt/gpxEndPt/gpxEle/gpxTime); the header block of writeToFile (h > 0: #srid, #ref point, #column names + feature names; no Reference epoch line, fmt.time_ini stays -1)")
+                "wktLineStringToObs + Network.addNode order (first registration of a node id wins, whatever the later end vertices), Track.toWKT (ENU, Geo, "
+                "ECEF), TrackWriter.writeToCsv (track -> writeToFile, collection -> writeToFiles), TrackReader.parseWkt (POLYGON, LINESTRING, the MULTIPOLYGON branch's AttributeError), TrackWriter.writeToGpx body "
+                "with and without af=True (<extensions> block), "
+                "TrackReader.__readFromGpx (type trk: the <extensions> block skipped, then the per-tag steps gpxPt/gpxEndPt/gpxEle/gpxTime); the header block of writeToFile (h > 0: #srid, #ref point, #column names + feature names; no Reference epoch line, fmt.time_ini stays -1)")
     trusted = ["Python's format()/repr()/float()/int() on the decimal lattice are modelled by an own decimal printer/parser; the rounding done by format() on "
                "off-lattice floats is computed by the harness with exact rational arithmetic and handed to the model",
                "csv.reader is modelled as its documented state machine (delimiter, doublequote); file system calls are trusted"]
     rule = ("exhaustive: every column layout (24+6+6+2 id permutations) x separators , ; blank x h in {0,1} (header block written / not, read with the same h) x ENU/GEO/ECEF; "
             "writer h in {1,2,3} x reader header 0..5 (correspondence); random tracks of 1-6 fixes with "
             "negative / 1e6-large / many-decimal coordinates on and off the 1 mm / 1e-8 deg lattice, timestamps at midnight, month, year ends and leap days; "
-            "time formats; GPX write/read; networks of 1-4 edges, three orientations, 2-5 vertices; WKT; sessions of 2-4 operations (CSV, GPX to one file, GPX "
-            "to one file per track in a directory, network, WKT, timeWithZone, KML) sharing the global ObsTime formats set once at the start. non-trivial = at least one non-zero coordinate "
-            "or a timestamp other than the epoch")
+            "time formats; feature columns (0-3, int / float / str / nan values, names incl. `k&`, `time`, `ele`) read back with read_all for writer h 0-3 x reader header 0-4; "
+            "the front end writeToCsv on a track and on a collection (one file per track); GPX write/read, 40 % with af=True (feature names incl. time, ele, trk, trkpt); networks of 1-5 edges, three orientations, 2-5 vertices, ids that are numeric strings, user weights, half of them NOT "
+            "topologically exact (edges sharing a node id end up to a few units beside the node's registered position; self loops); WKT (ENU, Geo, ECEF) and hand-made "
+            "POLYGON / LINESTRING / MULTIPOLYGON texts; sessions of 2-6 operations (CSV, GPX to one file, GPX to one file per track in a directory, network, WKT, "
+            "timeWithZone, KML, readTimestamp / ObsTime(str)) sharing the global ObsTime formats - set once at the start, or changed by the user between operations "
+            "(setfmt), between the write and the read of one file (mid_print), with twin formats (same literals and widths, two-character codes permuted) whose files hold "
+            "the very same timestamp texts, files read by 2-3 readers; reread: one text under a sequence of read formats. Every multi-operation case runs in a child "
+            "forked from a process that never executed library code, single-operation cases in one long-lived child (a failure there is re-run in a fresh child): a "
+            "reported failing input fails again alone. non-trivial = at least one non-zero coordinate or a timestamp other than the epoch")
 
     # ------------------------------------------------------------------ setup
     def setup(self):
@@ -157,8 +279,9 @@ class P(Prop):
         return ["all 38 column layouts (id_E,id_N[,id_U][,id_T] a permutation of 0..k-1) x separators {',', ';', ' '} x h in {0,1} x {ENU, GEO, ECEF}, "
                 "%d random tracks each" % (2 if tier == "quick" else 8),
                 "sessions: every operation kind in {csv, gpx one file, gpx one file per track, network, wkt, timeWithZone, kml} (and, for the default and the ISO "
-                "format%s, every ordered pair of kinds) followed by a CSV round trip, under each of the %d session time formats" % (
-                    "" if tier == "quick" else " and all the others", len(CSV_FMTS)),
+                "format%s, every ordered pair of kinds) followed by a CSV round trip, under each of the %d session time formats; for each of them %d twin-format "
+                "sessions (the second file holds the texts of the first, read under the permuted format)" % (
+                    "" if tier == "quick" else " and all the others", len(CSV_FMTS), 40 if tier == "quick" else 400),
                 "fixed-point rendering {:10.3f}/{:20.10f}/{:3.8f} of every integer -2100..2100 and of 10^k-1, 10^k, 10^k+1 (k <= 12), both signs"]
 
     def rand_stamp(self, rng):
@@ -202,43 +325,80 @@ class P(Prop):
             rows.append(c + self.rand_stamp(rng))
         return rows, q
 
-    def csv_case(self, rng, ids, sep, h, srid, q="lat", pfmt=None, naf=0, n=None, hdrR=None):
+    def rand_af(self, rng, rich):
+        if not rich or rng.random() < 0.4:
+            return rng.choice([0, 1, -7, 42, rng.randrange(-10 ** 6, 10 ** 6)])
+        r = rng.random()
+        if r < 0.45:
+            d = rng.choice([1, 2, 3, 6])
+            n = rng.choice([rng.randrange(-10 ** 7, 10 ** 7), 5, -25, 10 ** d, 123456])
+            if n != 0 and abs(n) < 10 ** (d - 4):      # repr() stays positional
+                n = 10 ** d + n
+            return ["D", n, d]
+        if r < 0.85:
+            return ["S", rng.choice(AF_STRS)]
+        return rng.choice([["nan"], ["inf", False], ["inf", True]])
+
+    def csv_case(self, rng, ids, sep, h, srid, q="lat", pfmt=None, naf=0, n=None, hdrR=None, rich=False, read_all=False):
         rows, q = self.rand_rows(rng, srid, n, q)
         case = {"kind": "csv", "srid": srid, "ids": ids, "sep": sep, "h": h, "hdrR": h if hdrR is None else hdrR,
                 "pfmt": pfmt or DEFAULT_FMT, "q": q, "rows": rows}
         case["rfmt"] = case["pfmt"]
         if naf:
-            case["af_names"] = ["af%d" % i for i in range(naf)]
-            case["afs"] = [[rng.choice([0, 1, -7, 42, rng.randrange(-10 ** 6, 10 ** 6)]) for _ in range(naf)] for _ in rows]
+            case["af_names"] = ["af%d" % i for i in range(naf)] if not rich else rng.sample(AF_NAMES[:8] if rng.random() < 0.9 else AF_NAMES, naf)
+            case["afs"] = [[self.rand_af(rng, rich) for _ in range(naf)] for _ in rows]
+        if read_all:
+            case["read_all"] = True
         return case
 
     def rand_ident(self, rng):
-        return rng.choice(["a", "b", "n1", "N2", "17", "x_9", "node-3", "k"]) + rng.choice(["", "", "0", "7", "z"])
+        """identifiers as real files deliver them: names, numeric strings (plain, zero-padded, negative, decimal), mixed"""
+        return rng.choice(["a", "b", "n1", "N2", "17", "x_9", "node-3", "k", "0", "007", "-1", "1.0", "1e3", "42"]) + rng.choice(["", "", "0", "7", "z"])
 
-    def net_case(self, rng, sep=None, h=None, hdrR=None, srid=None):
-        srid = srid or rng.choice(["ENU", "ENU", "GEO"])
-        q = 3 if srid == "ENU" else 8
+    def net_case(self, rng, sep=None, h=None, hdrR=None, srid=None, loose=None):
+        """a small network. `loose` (half of the cases): the network is not topologically exact - an edge attached to a node
+        that an earlier edge registered may end a little beside that node's position (end nodes merged within a tolerance, as
+        map data delivers them), so several edges share a node id while their end vertices differ"""
+        srid = srid or rng.choice(["ENU", "ENU", "GEO"])     # (the network reader refuses ECEF: 2D lengths are not defined on it)
+        q = 8 if srid == "GEO" else 3
         nn = rng.choice([2, 3, 4])
         names = []
         while len(names) < nn:
             s = self.rand_ident(rng)
             if s not in names:
                 names.append(s)
+        ok = lambda p: all(v == 0 or abs(v) >= 10 ** (q - 4) for v in p)    # repr() stays positional
 
         def pt():
             while True:
                 p = [self.rand_coord(rng, srid, 0, q), self.rand_coord(rng, srid, 1, q)]
-                if all(v == 0 or abs(v) >= 10 ** (q - 4) for v in p):    # repr() stays positional
+                if ok(p):
                     return p
         pos = {s: pt() for s in names}
-        ne = rng.choice([1, 2, 3, 4])
+        loose = (rng.random() < 0.5) if loose is None else loose
+
+        def end(s):
+            """end vertex of an edge at node s: on the node, or (loose networks) up to a few units beside it"""
+            if not loose or rng.random() < 0.4:
+                return pos[s]
+            for _ in range(20):
+                p = [pos[s][0] + rng.choice([0, 1, -1, 7, -250, 400, 1000, -12345]), pos[s][1] + rng.choice([0, 1, -1, -7, 250, -400, 500, 54321])]
+                if srid == "GEO":
+                    p = [max(-180 * 10 ** q, min(180 * 10 ** q, p[0])), max(-90 * 10 ** q, min(90 * 10 ** q, p[1]))]
+                if ok(p) and p != pos[s]:
+                    return p
+            return pos[s]
+        ne = rng.choice([1, 2, 3, 4, 5])
         edges = []
         for i in range(ne):
             a = rng.choice(names)
             b = rng.choice(names)
             mid = [pt() for _ in range(rng.choice([0, 0, 1, 2, 3]))]
-            edges.append({"id": "e%d" % i if rng.random() < 0.7 else self.rand_ident(rng) + "_%d" % i, "src": a, "tgt": b,
-                          "orient": rng.choice([0, 1, -1]), "geom": [pos[a]] + mid + [pos[b]]})
+            e = {"id": "e%d" % i if rng.random() < 0.6 else self.rand_ident(rng) + "_%d" % i, "src": a, "tgt": b,
+                 "orient": rng.choice([0, 1, -1]), "geom": [end(a)] + mid + [end(b)]}
+            if rng.random() < 0.3:
+                e["w"] = rng.choice([0, 1, 2.5, 1000, -1])        # a weight set by the user (the writer does not write it)
+            edges.append(e)
         h = rng.choice([0, 1, 1]) if h is None else h
         return {"kind": "net", "srid": srid, "q": q, "sep": sep or rng.choice([",", ";", " ", "\t", "|"]), "h": h,
                 "hdrR": h if hdrR is None else hdrR, "posdir": 3, "edges": edges}
@@ -264,8 +424,8 @@ class P(Prop):
         if kind == "net":
             return self.net_case(rng, sep=rng.choice([",", ";"]), h=1)
         if kind == "wkt":
-            srid = rng.choice(["ENU", "GEO"])
-            q = 3 if srid == "ENU" else 8
+            srid = rng.choice(["ENU", "GEO", "ECEF"])
+            q = 8 if srid == "GEO" else 3
             pts = []
             while len(pts) < 2:
                 p = [self.rand_coord(rng, srid, 0, q), self.rand_coord(rng, srid, 1, q)]
@@ -274,6 +434,8 @@ class P(Prop):
             return {"kind": "wkt", "srid": srid, "q": q, "pts": pts}
         if kind == "tz":
             return {"kind": "tz", "t": self.rand_stamp(rng)}
+        if kind == "time":
+            return {"kind": "time", "pfmt": fmt, "rfmt": fmt, "t": self.rand_stamp(rng), "via": rng.choice(["readTimestamp", "ctor"])}
         if kind == "kml":
             srid = rng.choice(["ENU", "GEO"])
             rows, q = self.rand_rows(rng, srid, n=2)
@@ -281,6 +443,111 @@ class P(Prop):
         raise ValueError(kind)
 
     SESSION_OPS = ["csv", "gpx", "gpxdir", "net", "wkt", "tz", "kml"]
+
+    @staticmethod
+    def norm(case):
+        """a session with the formats in force written on every operation: `setfmt` operations (the user calling
+        ObsTime.setReadFormat / setPrintFormat between two files) and `mid_print` (the print format changed between the write
+        and the read of one file) move them; `cur` = [read, print] expected after the operation. Idempotent; applied
+        wherever a session case is looked at, so that shrinking a session cannot leave stale annotations."""
+        if case.get("kind") != "session":
+            return case
+        rd = pr = case["fmt"]
+        ops = []
+        for op in case["ops"]:
+            op = dict(op)
+            k = op["kind"]
+            if k == "setfmt":
+                rd = op.get("read") or rd
+                pr = op.get("print") or pr
+            elif k in ("csv", "time"):
+                op["pfmt"], op["rfmt"] = pr, rd
+                if k == "csv" and op.get("mid_print"):
+                    pr = op["mid_print"]
+            elif k == "reread":
+                op["pfmt"] = pr
+                rd = op["fmts"][-1]
+            op["cur"] = [rd, pr]
+            ops.append(op)
+        return dict(case, ops=ops)
+
+    def same_text_rows(self, rng, f1, f2, n):
+        """n pairs of stamps (t1, t2), both valid dates, such that t1 printed under f1 and t2 printed under f2 are the SAME
+        text (03/04/2021 is 3 April under 2D/2M/4Y and 4 March under 2M/2D/4Y); None when none was found"""
+        out = []
+        for _ in range(60 * n):
+            t1 = self.rand_stamp(rng)
+            if rng.random() < 0.7:      # small fields are valid in every position
+                t1 = [t1[0], rng.randrange(1, 13), rng.randrange(1, 13), rng.randrange(0, 24), rng.randrange(0, 24), rng.randrange(0, 24), t1[6]]
+            t2 = py_parse(f2, py_print(f1, t1))
+            if t2 is not None and valid_stamp(t2) and t2 != py_parse(f1, py_print(f1, t1)):
+                out.append((t1, t2))
+                if len(out) == n:
+                    return out
+        return None
+
+    def twin_session(self, rng, fmt):
+        """two files in one process, each written and read with its own matching format, the second format a twin of the
+        first and the second file holding the very texts of the first (or: the texts first met by readTimestamp / ObsTime(str))"""
+        f2 = twin_fmt(fmt, rng)
+        n = rng.choice([1, 2, 3])
+        pairs = self.same_text_rows(rng, fmt, f2, n)
+        if f2 == fmt or pairs is None:
+            return None
+        L = [l for l in self.layouts() if l["T"] != -1]
+        srid = rng.choice(SRIDS)
+        c1 = self.csv_case(rng, rng.choice(L), rng.choice([",", ";", "|", "\t"]), rng.choice([0, 1]), srid, pfmt=fmt, n=n)
+        c2 = self.csv_case(rng, rng.choice(L), rng.choice([",", ";", "|", "\t"]), rng.choice([0, 1]), srid, pfmt=f2, n=n)
+        for r1, r2, (t1, t2) in zip(c1["rows"], c2["rows"], pairs):
+            r1[3:10] = t1
+            r2[3:10] = t2
+        first = rng.choice(["csv", "csv", "time", "reread"])
+        if first == "csv":
+            ops = [c1]
+        elif first == "time":
+            ops = [{"kind": "time", "pfmt": fmt, "rfmt": fmt, "t": t1, "via": rng.choice(["readTimestamp", "ctor"])} for t1, _ in pairs]
+        else:
+            ops = [{"kind": "reread", "t": t1, "fmts": [fmt], "via": "readTimestamp"} for t1, _ in pairs]
+        if rng.random() < 0.3:
+            ops.append(self.session_op(rng, rng.choice(self.SESSION_OPS), fmt))
+        ops += [{"kind": "setfmt", "read": f2, "print": f2}, c2]
+        if rng.random() < 0.3:      # and back again
+            ops += [{"kind": "setfmt", "read": fmt, "print": fmt}, dict(c1, sep=rng.choice([",", ";"]))]
+        return self.norm({"kind": "session", "fmt": fmt, "ops": ops})
+
+    def reread_case(self, rng):
+        """one timestamp text read under a sequence of read formats (the first one is the format it was printed with)"""
+        f1 = rng.choice(CSV_FMTS)
+        fm = [f1]
+        for _ in range(rng.choice([1, 2, 3])):
+            fm.append(rng.choice([twin_fmt(f1, rng), twin_fmt(f1, rng), f1, rng.choice(CSV_FMTS)]))
+        t = self.rand_stamp(rng)
+        if rng.random() < 0.7:
+            t = [t[0], rng.randrange(1, 13), rng.randrange(1, 13), rng.randrange(0, 24), rng.randrange(0, 24), rng.randrange(0, 24), t[6]]
+        return {"kind": "reread", "pfmt": f1, "t": t, "fmts": fm, "via": rng.choice(["readTimestamp", "ctor"])}
+
+    def mixed_session(self, rng):
+        """a session in which the user changes the read / print formats between (and inside) the operations"""
+        fmt = rng.choice(CSV_FMTS)
+        pool = CSV_FMTS + [twin_fmt(fmt, rng), twin_fmt(fmt, rng)]
+        ops = []
+        for _ in range(rng.choice([2, 3, 4, 5])):
+            r = rng.random()
+            if r < 0.3:
+                f = rng.choice(pool)
+                ops.append(rng.choice([{"kind": "setfmt", "read": f, "print": f}, {"kind": "setfmt", "read": f, "print": f},
+                                       {"kind": "setfmt", "read": f}, {"kind": "setfmt", "print": f}]))
+            else:
+                op = self.session_op(rng, rng.choice(self.SESSION_OPS + ["csv", "csv", "time"]), fmt)
+                if op["kind"] == "csv":
+                    if rng.random() < 0.25:
+                        op["mid_print"] = rng.choice(pool)      # the print format is changed between the write and the read
+                    if rng.random() < 0.3:
+                        op["nread"] = rng.choice([2, 3])        # the file is read by several readers
+                ops.append(op)
+        if ops[-1]["kind"] == "setfmt":
+            ops.append(self.session_op(rng, "csv", fmt))
+        return self.norm({"kind": "session", "fmt": fmt, "ops": ops})
 
     def session_cases(self, rng, tier):
         out = []
@@ -298,7 +565,17 @@ class P(Prop):
             n = rng.choice([2, 3, 4])
             ops = [self.session_op(rng, rng.choice(self.SESSION_OPS + ["csv", "gpxdir"]), fmt) for _ in range(n)]
             out.append({"kind": "session", "fmt": fmt, "ops": ops})
-        return out
+        # the formats change during the session: twin formats reading the same texts, formats set between / inside operations
+        for fmt in CSV_FMTS:
+            for _ in range(40 if tier != "thorough" else 400):
+                c = self.twin_session(rng, fmt)
+                if c is not None:
+                    out.append(c)
+        for _ in range(600 if tier != "thorough" else 6000):
+            out.append(self.mixed_session(rng))
+        for _ in range(300 if tier != "thorough" else 3000):
+            out.append(self.reread_case(rng))
+        return [self.norm(c) for c in out]
 
     def cases(self, rng, tier):
         out = self.session_cases(rng, tier)
@@ -315,7 +592,7 @@ class P(Prop):
                 out.append({"kind": "fix", "w": w, "d": d, "ns": [rng.randrange(-10 ** rng.randrange(1, 15), 10 ** rng.randrange(1, 15)) for _ in range(50)]})
         # --- timestamps
         for f in TIME_FMTS:
-            for _ in range(150 if not thorough else 1500):
+            for _ in range(100 if not thorough else 1500):
                 out.append({"kind": "time", "pfmt": f, "rfmt": f, "t": self.rand_stamp(rng)})
         for _ in range(30):
             out.append({"kind": "time", "pfmt": ISO_FMT, "rfmt": DEFAULT_FMT, "t": self.rand_stamp(rng)})
@@ -328,7 +605,7 @@ class P(Prop):
                             out.append(self.csv_case(rng, ids, sep, h, srid))
         L = self.layouts()
         # random CSV: formats, off-lattice values, features, blank separator with a blank-free time format
-        for _ in range(6000 if not thorough else 60000):
+        for _ in range(4000 if not thorough else 60000):
             ids = rng.choice(L)
             srid = rng.choice(SRIDS)
             sep = rng.choice([",", ";", ";", ",", " ", "\t", "|"])
@@ -353,6 +630,20 @@ class P(Prop):
                 for _ in range(6 if not thorough else 60):
                     out.append(self.csv_case(rng, rng.choice(L), rng.choice([",", ";", "|"]), h, rng.choice(SRIDS), hdrR=hdrR,
                                              naf=rng.choice([0, 1, 2]), n=rng.choice([1, 2, 3])))
+        # the other CSV entry point of the writer: TrackWriter.writeToCsv(track, path, TrackFormat)
+        for _ in range(300 if not thorough else 3000):
+            c = self.csv_case(rng, rng.choice(L), rng.choice([",", ";", "|", "\t"]), rng.choice([0, 1, 1]), rng.choice(SRIDS), q=rng.choice(["lat", "lat", None]),
+                              pfmt=rng.choice(CSV_FMTS), n=rng.choice([1, 2, 3]))
+            c["front"] = "writeToCsv"
+            if rng.random() < 0.3:     # a collection: one file track_output_<i>.csv per track in a directory
+                c["more"] = [self.rand_rows(rng, c["srid"], rng.choice([1, 2]), c["q"])[0] for _ in range(rng.choice([1, 2]))]
+            out.append(c)
+        # feature columns with int / float / str / nan values, read back with read_all (the names come from the header block)
+        for _ in range(1500 if not thorough else 15000):
+            h = rng.choice([1, 1, 1, 1, 2, 3, 0])
+            out.append(self.csv_case(rng, rng.choice(L), rng.choice([",", ";", ";", "|", "\t", " "]), h, rng.choice(SRIDS), q=rng.choice(["lat", "lat", None]),
+                                     pfmt=rng.choice([DEFAULT_FMT, ISO_FMT, ISO_FMT]), naf=rng.choice([0, 1, 2, 3]), n=rng.choice([1, 2, 3]),
+                                     hdrR=rng.choice([h, h, h, 0, 1, 2, 3, 4]), rich=rng.random() < 0.8, read_all=rng.random() < 0.85))
         for _ in range(40 if not thorough else 400):
             c = self.csv_case(rng, rng.choice(L), rng.choice([",", ";"]), 0, rng.choice(["ENU", "ECEF"]), n=3)
             c["rows"][rng.randrange(3)][rng.randrange(2)] = rng.choice([-999999000, -999999999, -999999500, -1000000000, -999998999])
@@ -364,8 +655,13 @@ class P(Prop):
             if srid != "GEO" and rng.random() < 0.5:
                 for r in rows:
                     r[2] = 0 if q is not None else 0.0
-            out.append({"kind": "gpx", "srid": srid, "q": q, "rows": rows, "rfmt": rng.choice([ISO_FMT, ISO_FMT, ISO_FMT + "Z"]),
-                        "tid": rng.choice([0, 7, "trace", "t-1"])})
+            c = {"kind": "gpx", "srid": srid, "q": q, "rows": rows, "rfmt": rng.choice([ISO_FMT, ISO_FMT, ISO_FMT + "Z"]),
+                 "tid": rng.choice([0, 7, "trace", "t-1"])}
+            if rng.random() < 0.4:       # writeToGpx(af=True): an <extensions> block per point
+                naf = rng.choice([0, 1, 2, 3])
+                c["af_names"] = rng.sample(AF_NAMES[:8] + ["time", "ele", "trk", "trkpt", "E"], naf)
+                c["afs"] = [[self.rand_af(rng, True) for nm in c["af_names"]] for _ in rows]
+            out.append(c)
         for _ in range(10):
             rows, q = self.rand_rows(rng, "GEO", q=8)
             out.append({"kind": "gpx", "srid": "GEO", "q": q, "rows": rows, "rfmt": DEFAULT_FMT, "tid": 0})
@@ -374,7 +670,7 @@ class P(Prop):
             for h in (0, 1):
                 for _ in range(15 if not thorough else 150):
                     out.append(self.net_case(rng, sep, h))
-        for _ in range(2000 if not thorough else 20000):
+        for _ in range(1500 if not thorough else 20000):
             out.append(self.net_case(rng))
         for _ in range(40):
             c = self.net_case(rng, hdrR=rng.choice([0, 1, 2]))
@@ -384,9 +680,9 @@ class P(Prop):
             c["posdir"] = -1
             out.append(c)
         # --- WKT
-        for _ in range(2000 if not thorough else 20000):
-            srid = rng.choice(["ENU", "GEO"])
-            q = 3 if srid == "ENU" else 8
+        for _ in range(1000 if not thorough else 20000):
+            srid = rng.choice(["ENU", "GEO", "ECEF"])
+            q = 8 if srid == "GEO" else 3
             n = rng.choice([1, 2, 3, 5, 8])
             pts = []
             while len(pts) < n:
@@ -394,7 +690,34 @@ class P(Prop):
                 if all(v == 0 or abs(v) >= 10 ** (q - 4) for v in p):
                     pts.append(p)
             out.append({"kind": "wkt", "srid": srid, "q": q, "pts": pts})
+        # WKT texts as other tools write them, parsed by TrackReader.parseWkt (reader only): polygons, z values, blanks, case
+        for _ in range(400 if not thorough else 4000):
+            out.append(self.wktp_case(rng))
         return out
+
+    def wktp_case(self, rng):
+        from fractions import Fraction as F
+        q = rng.choice([1, 2, 3])
+
+        def num():
+            v = rng.choice([rng.randrange(-10 ** 6, 10 ** 6), 0, 5, -25, 1000])
+            return repr(float(F(v, 10 ** q))) if rng.random() < 0.8 else str(v // 10 ** q)
+        n = rng.choice([1, 2, 3, 4, 6])
+        vs = [" ".join(num() for _ in range(rng.choice([2, 2, 2, 3, 1, 4]))) for _ in range(n)]
+        body = rng.choice([",", ",", ", ", " ,"]).join(vs)
+        head = rng.choice(["POLYGON", "POLYGON", "Polygon", "polygon ", "POLYGON ", "LINESTRING", "linestring", "LineString ", "MULTIPOLYGON", "MULTIPOLYGON (", "POINT", "", "POLY"])
+        if head.strip().upper().startswith("LINE"):
+            text = head + "(" + body + ")"
+        elif head.strip().upper().startswith("MULTI"):
+            text = head + rng.choice(["(((", "(("]) + body + rng.choice([")))", ")),((0 0,1 1)))"])
+        else:
+            text = head + rng.choice(["((", "((", "(", "(("]) + body + rng.choice(["))", "))", ")", "),(0 0,1 1))"])
+        return {"kind": "wktp", "text": text}
+
+    def search_cases(self, rng):
+        """failing-input search after a broken correspondence: two more draws of the quick generator (every case costs a
+        fork; the thorough generator would take minutes)"""
+        return self.cases(rng, "quick") + self.cases(rng, "quick")
 
     def describe(self, case):
         t = {"kind": case["kind"]}
@@ -404,16 +727,30 @@ class P(Prop):
             t["layout"] = "E%(E)dN%(N)dU%(U)dT%(T)d" % case["ids"]
             t["lattice"] = case["q"] is not None
             t["domain"] = self.csv_domain(case) is None
+            t["read_all"] = bool(case.get("read_all"))
         if k in ("net",):
             t["sep"] = case["sep"]; t["h"] = case["h"]; t["edges"] = len(case["edges"])
+            t["exact_topology"] = self.net_exact(case)
         if k == "gpx":
             t["srid"] = case["srid"]
+            t["extensions"] = "af_names" in case
         if k == "time":
             t["fmt"] = case["pfmt"]
         if k == "session":
             t["ops"] = "-".join(o["kind"] for o in case["ops"])
             t["fmt"] = case["fmt"]
+            t["formats_change"] = any(o["kind"] == "setfmt" or o.get("mid_print") for o in case["ops"])
         return t
+
+    @staticmethod
+    def net_exact(case):
+        """every edge ends exactly on the position its end nodes were registered with (first mention)"""
+        pos = {}
+        for e in case["edges"]:
+            for nid, p in ((e["src"], e["geom"][0]), (e["tgt"], e["geom"][-1])):
+                if pos.setdefault(nid, p) != p:
+                    return False
+        return True
 
     def nontrivial(self, case):
         k = case["kind"]
@@ -421,12 +758,16 @@ class P(Prop):
             return any(any(r[:3]) or r[3:] != [1970, 1, 1, 0, 0, 0, 0] for r in case["rows"])
         if k == "fix":
             return any(case["ns"])
-        if k == "time":
+        if k in ("time", "reread"):
             return case["t"] != [1970, 1, 1, 0, 0, 0, 0]
+        if k == "setfmt":
+            return False
         if k == "net":
             return any(any(any(p) for p in e["geom"]) for e in case["edges"])
         if k == "wkt":
             return any(any(p) for p in case["pts"])
+        if k == "wktp":
+            return True
         if k == "session":
             return any(self.nontrivial(o) for o in case["ops"])
         if k == "gpxdir":
@@ -471,7 +812,96 @@ class P(Prop):
                     if b != c:
                         self.leaks.append([name, what, b, c])
 
+    ISOLATED = ("session", "reread", "gpxdir")
+    _runner = None       # (owner pid, child pid, pipe to the child, pipe from the child)
+
     def impl(self, case):
+        """Where the library code runs. This process never executes library code after the imports of setup().
+        * multi-operation cases (sessions, reread, gpxdir) each run in a child forked from this pristine process: whatever a
+          call leaves behind (class-level formats, memo tables, counters) is seen by the later calls of the SAME case - that is
+          what sessions are for - and by no other case;
+        * single-operation cases run one after the other in one long-lived child (a fork per case is too dear for 10^4 cases);
+          when the oracle rejects what that child answered, the case is run again in a fresh child and THAT answer counts.
+        A failing case therefore fails again when replayed alone in a fresh process."""
+        if case["kind"] == "fix" or os.environ.get("C13_NOFORK"):
+            return self.impl_here(case)
+        if case["kind"] in self.ISOLATED:
+            return self.fork_call(case)
+        out = self.runner_call(case)
+        try:
+            bad = self.spec(case, out)
+        except Exception:
+            bad = True
+        return self.fork_call(case) if bad else out
+
+    def guarded(self, case):
+        try:
+            return self.impl_here(case)
+        except BaseException as e:
+            from engine import err_kind
+            return {"err": err_kind(e), "detail": str(e)[:200]}
+
+    def fork_call(self, case):
+        import pickle
+        r, w = os.pipe()
+        pid = os.fork()
+        if pid == 0:
+            code = 0
+            try:
+                os.close(r)
+                with os.fdopen(w, "wb") as fh:
+                    fh.write(pickle.dumps(self.guarded(case)))
+            except BaseException:
+                code = 1
+            finally:
+                os._exit(code)
+        os.close(w)
+        with os.fdopen(r, "rb") as fh:
+            data = fh.read()
+        os.waitpid(pid, 0)
+        if not data:
+            return {"err": "err:child", "detail": "the child process running the case died"}
+        return pickle.loads(data)
+
+    def runner_call(self, case):
+        import pickle, struct, io, sys
+        R = P._runner
+        if R is None or R[0] != os.getpid():
+            c2p_r, c2p_w = os.pipe()
+            p2c_r, p2c_w = os.pipe()
+            pid = os.fork()
+            if pid == 0:
+                try:
+                    os.close(c2p_r); os.close(p2c_w)
+                    fin, fout = os.fdopen(p2c_r, "rb"), os.fdopen(c2p_w, "wb")
+                    while True:
+                        hdr = fin.read(4)
+                        if len(hdr) < 4:
+                            break
+                        c = pickle.loads(fin.read(struct.unpack(">I", hdr)[0]))
+                        sys.stdout, sys.stderr = io.StringIO(), io.StringIO()
+                        data = pickle.dumps(self.guarded(c))
+                        fout.write(struct.pack(">I", len(data)) + data)
+                        fout.flush()
+                except BaseException:
+                    pass
+                finally:
+                    os._exit(0)
+            os.close(c2p_w); os.close(p2c_r)
+            R = P._runner = (os.getpid(), pid, os.fdopen(p2c_w, "wb"), os.fdopen(c2p_r, "rb"))
+        try:
+            data = pickle.dumps(case)
+            R[2].write(struct.pack(">I", len(data)) + data)
+            R[2].flush()
+            hdr = R[3].read(4)
+            if len(hdr) < 4:
+                raise EOFError
+            return pickle.loads(R[3].read(struct.unpack(">I", hdr)[0]))
+        except Exception:
+            P._runner = None         # the runner died: answer from a fresh child, start another runner next time
+            return self.fork_call(case)
+
+    def impl_here(self, case):
         T = self.ObsTime
         save = (T.getReadFormat(), T.getPrintFormat())
         try:
@@ -483,6 +913,7 @@ class P(Prop):
     def impl_session(self, case):
         """2-4 operations in one process sharing the global ObsTime formats, which are set ONCE, at the start"""
         T = self.ObsTime
+        case = self.norm(case)
         T.setPrintFormat(case["fmt"]); T.setReadFormat(case["fmt"])
         self.ambient = True
         outs = []
@@ -498,6 +929,36 @@ class P(Prop):
             o["fmt_after"] = [T.getReadFormat(), T.getPrintFormat()]
             outs.append(o)
         return {"ops": outs}
+
+    def impl_setfmt(self, case):
+        """the user sets the global formats (not a round trip: nothing to check but the formats afterwards)"""
+        T = self.ObsTime
+        if case.get("read"):
+            T.setReadFormat(case["read"])
+        if case.get("print"):
+            T.setPrintFormat(case["print"])
+        return {}
+
+    def read_stamp(self, s, via):
+        T = self.ObsTime
+        try:
+            b = self.lib("ObsTime.readTimestamp", T.readTimestamp, s) if via != "ctor" else self.lib("ObsTime(str)", T, s)
+            return [b.year, b.month, b.day, b.hour, b.min, b.sec, b.ms]
+        except Exception as e:
+            return self.ekind(e)
+
+    def impl_reread(self, case):
+        """str(t) under the print format, then the SAME text read under each read format of the list in turn"""
+        T = self.ObsTime
+        if not self.ambient:
+            T.setPrintFormat(case["pfmt"])
+        t = case["t"]
+        s = str(T(t[0], t[1], t[2], t[3], t[4], t[5], t[6]))
+        backs = []
+        for f in case["fmts"]:
+            T.setReadFormat(f)
+            backs.append(self.read_stamp(s, case.get("via")))
+        return {"text": s, "backs": backs}
 
     def impl_tz(self, case):
         t = case["t"]
@@ -562,15 +1023,11 @@ class P(Prop):
 
     def impl_time(self, case):
         T = self.ObsTime
-        T.setPrintFormat(case["pfmt"]); T.setReadFormat(case["rfmt"])
+        if not self.ambient:
+            T.setPrintFormat(case["pfmt"]); T.setReadFormat(case["rfmt"])
         t = case["t"]
         s = str(T(t[0], t[1], t[2], t[3], t[4], t[5], t[6]))
-        try:
-            b = T.readTimestamp(s)
-            back = [b.year, b.month, b.day, b.hour, b.min, b.sec, b.ms]
-        except Exception as e:
-            back = self.ekind(e)
-        return {"text": s, "back": back}
+        return {"text": s, "back": self.read_stamp(s, case.get("via"))}
 
     def impl_csv(self, case):
         T = self.ObsTime
@@ -582,11 +1039,17 @@ class P(Prop):
         for j, nm in enumerate(names):
             trk.createAnalyticalFeature(nm)
             for i in range(len(case["rows"])):
-                trk.setObsAnalyticalFeature(nm, i, case["afs"][i][j])
+                trk.setObsAnalyticalFeature(nm, i, af_py(case["afs"][i][j]))
+        if case.get("more"):
+            return self.impl_csv_collection(case)
         path = self.tmpfile("csv")
         try:
             try:
-                if names:
+                if case.get("front") == "writeToCsv":
+                    from tracklib.io import TrackFormat
+                    tf = TrackFormat({"ext": "CSV", "id_E": ids["E"], "id_N": ids["N"], "id_U": ids["U"], "id_T": ids["T"], "separator": case["sep"], "header": case["h"]})
+                    self.lib("TrackWriter.writeToCsv", self.TW.writeToCsv, trk, path, tf)
+                elif names:
                     self.lib("TrackWriter.writeToFile", self.TW.writeToFile, trk, path, ids["E"], ids["N"], ids["U"], ids["T"], case["sep"], case["h"], names)
                 else:
                     self.lib("TrackWriter.writeToFile", self.TW.writeToFile, trk, path, ids["E"], ids["N"], ids["U"], ids["T"], case["sep"], case["h"])
@@ -596,14 +1059,63 @@ class P(Prop):
                 text = fh.read()
             if not self.ambient:
                 T.setReadFormat(case["rfmt"])
-            try:
-                back = self.lib("TrackReader.readFromCsv", self.TR.readFromCsv, path, ids["E"], ids["N"], ids["U"], ids["T"], case["sep"], h=case["hdrR"], srid=case["srid"])
-                return {"text": text, "read": self.obs_rows(back)}
-            except Exception as e:
-                return {"text": text, "read": self.ekind(e)}
+            if case.get("mid_print"):
+                T.setPrintFormat(case["mid_print"])      # the user changes the print format between the write and the read
+            reads = []
+            for _ in range(case.get("nread", 1)):        # the file written once is read by several readers
+                try:
+                    back = self.lib("TrackReader.readFromCsv", self.TR.readFromCsv, path, ids["E"], ids["N"], ids["U"], ids["T"], case["sep"], h=case["hdrR"], srid=case["srid"],
+                                    read_all=bool(case.get("read_all")))
+                    reads.append(self.obs_rows(back))
+                    if case.get("read_all") and len(reads) == 1:
+                        nms = back.getListAnalyticalFeatures()
+                        af = {"names": nms, "vals": [[af_canon(back.getObsAnalyticalFeature(nm, i)) for nm in nms] for i in range(back.size())]}
+                except Exception as e:
+                    reads.append(self.ekind(e))
+            out = {"text": text, "read": reads[0]}
+            if case.get("read_all") and not isinstance(reads[0], str):
+                out["af"] = af
+            if len(reads) > 1:
+                out["rereads"] = reads[1:]
+            return out
         finally:
             if os.path.exists(path):
                 os.remove(path)
+
+    def impl_csv_collection(self, case):
+        """TrackWriter.writeToCsv(collection, <directory>, TrackFormat): one file track_output_<i>.csv per track"""
+        from tracklib.io import TrackFormat
+        T = self.ObsTime
+        ids = case["ids"]
+        coll = self.TrackCollection()
+        all_rows = [case["rows"]] + case["more"]
+        for rows in all_rows:
+            coll.addTrack(self.mk_track(case["srid"], rows, case["q"]))
+        d = tempfile.mkdtemp(prefix="c13c_")
+        try:
+            tf = TrackFormat({"ext": "CSV", "id_E": ids["E"], "id_N": ids["N"], "id_U": ids["U"], "id_T": ids["T"], "separator": case["sep"], "header": case["h"]})
+            try:
+                self.lib("TrackWriter.writeToCsv(collection)", self.TW.writeToCsv, coll, d, tf)
+            except Exception as e:
+                return {"werr": self.ekind(e)}
+            if not self.ambient:
+                T.setReadFormat(case["rfmt"])
+            files = []
+            for i in range(len(all_rows)):
+                path = os.path.join(d, "track_output_%d.csv" % i)
+                try:
+                    with open(path, newline="") as fh:
+                        text = fh.read()
+                except OSError:
+                    return {"werr": "nofile"}
+                try:
+                    back = self.lib("TrackReader.readFromCsv", self.TR.readFromCsv, path, ids["E"], ids["N"], ids["U"], ids["T"], case["sep"], h=case["hdrR"], srid=case["srid"])
+                    files.append({"text": text, "read": self.obs_rows(back)})
+                except Exception as e:
+                    files.append({"text": text, "read": self.ekind(e)})
+            return {"text": files[0]["text"], "read": files[0]["read"], "others": files[1:], "nfiles": len(os.listdir(d))}
+        finally:
+            shutil.rmtree(d, True)
 
     def impl_gpx(self, case):
         T = self.ObsTime
@@ -612,9 +1124,16 @@ class P(Prop):
         pf0 = T.getPrintFormat()
         trk = self.mk_track(case["srid"], case["rows"], case["q"])
         trk.tid = case["tid"]
+        for j, nm in enumerate(case.get("af_names", [])):
+            trk.createAnalyticalFeature(nm)
+            for i in range(len(case["rows"])):
+                trk.setObsAnalyticalFeature(nm, i, af_py(case["afs"][i][j]))
         path = self.tmpfile("gpx")
         try:
-            self.lib("TrackWriter.writeToGpx", self.TW.writeToGpx, trk, path)
+            if "af_names" in case:
+                self.lib("TrackWriter.writeToGpx(af=True)", self.TW.writeToGpx, trk, path, af=True)
+            else:
+                self.lib("TrackWriter.writeToGpx", self.TW.writeToGpx, trk, path)
             with open(path, newline="") as fh:
                 text = fh.read()
             head, _, body = text.partition("    <trk>\n")
@@ -642,6 +1161,8 @@ class P(Prop):
             trk = self.Track([self.Obs(C(cval(p[0], q), cval(p[1], q), 0.0), self.ObsTime()) for p in e["geom"]])
             ed = self.Edge(e["id"], trk)
             ed.orientation = e["orient"]
+            if "w" in e:
+                ed.weight = e["w"]
             g = e["geom"]
             net.addEdge(ed, self.Node(e["src"], C(cval(g[0][0], q), cval(g[0][1], q), 0.0)),
                         self.Node(e["tgt"], C(cval(g[-1][0], q), cval(g[-1][1], q), 0.0)))
@@ -679,17 +1200,26 @@ class P(Prop):
             read = self.ekind(e)
         return {"text": text, "read": read}
 
+    def impl_wktp(self, case):
+        try:
+            back = self.lib("TrackReader.parseWkt", self.TR.parseWkt, case["text"])
+            return {"read": [[float(o.position.getX()), float(o.position.getY()), float(o.position.getZ())] for o in back]}
+        except Exception as e:
+            return {"read": self.ekind(e)}
+
     # ------------------------------------------------------------------ model
     def row_tok(self, r, q, d, afs=()):
         c = [scaled_tok(cval(v, q), d) for v in r[:3]]
-        return ",".join(str(v) for v in c + list(r[3:10]) + list(afs))
+        return ",".join([str(v) for v in c + list(r[3:10])] + [af_tok(v) for v in afs])
 
     def requests(self, case):
         k = case["kind"]
         if k == "session":
-            return [l for op in case["ops"] for l in self.requests(op)]
-        if k in ("tz", "kml"):
+            return [l for op in self.norm(case)["ops"] for l in self.requests(op)]
+        if k in ("tz", "kml", "setfmt"):
             return []
+        if k == "reread":
+            return ["C13.time %s %s %s" % (hx(case["pfmt"]), hx(f), " ".join(map(str, case["t"]))) for f in case["fmts"]]
         if k == "gpxdir":
             return ["C13.gpx 1 %s %s %s" % (hx(case["rfmt"]), hx(str(tr["tid"])), ";".join(self.row_tok(r, case["q"], 8) for r in tr["rows"]))
                     for tr in case["tracks"]]
@@ -697,6 +1227,8 @@ class P(Prop):
             return ["C13.fix %d %d %d" % (case["w"], case["d"], n) for n in case["ns"]]
         if k == "time":
             return ["C13.time %s %s %s" % (hx(case["pfmt"]), hx(case["rfmt"]), " ".join(map(str, case["t"])))]
+        if k == "csv" and case.get("more"):
+            return [l for rows in [case["rows"]] + case["more"] for l in self.requests(dict({kk: v for kk, v in case.items() if kk != "more"}, rows=rows))]
         if k == "csv":
             ids = case["ids"]
             geo = case["srid"] == "GEO"
@@ -704,9 +1236,14 @@ class P(Prop):
             naf = len(case.get("af_names", []))
             rows = ";".join(self.row_tok(r, case["q"], d, case["afs"][i] if naf else ()) for i, r in enumerate(case["rows"]))
             names = ",".join(hx(n) for n in case.get("af_names", [])) or "_"
-            return ["C13.csv %d %d %d %d %d %d %d %d %s %s %d %s %s %s" % (geo, ids["E"], ids["N"], ids["U"], ids["T"], ord(case["sep"]), case["h"],
-                                                                          case["hdrR"], hx(case["pfmt"]), hx(case["rfmt"]), naf, rows,
-                                                                          hx(case["srid"]), names)]
+            return ["C13.csv %d %d %d %d %d %d %d %d %s %s %d %s %s %s %d" % (geo, ids["E"], ids["N"], ids["U"], ids["T"], ord(case["sep"]), case["h"],
+                                                                             case["hdrR"], hx(case["pfmt"]), hx(case["rfmt"]), naf, rows,
+                                                                             hx(case["srid"]), names,
+                                                                             2 if case.get("front") == "writeToCsv" else bool(case.get("read_all")))]
+        if k == "gpx" and "af_names" in case:
+            rows = ";".join(self.row_tok(r, case["q"], 8, case["afs"][i]) for i, r in enumerate(case["rows"]))
+            return ["C13.gpxaf %d %s %s %d %s %s" % (case["srid"] == "GEO", hx(case["rfmt"]), hx(str(case["tid"])), len(case["af_names"]),
+                                                     ",".join(hx(n) for n in case["af_names"]) or "_", rows)]
         if k == "gpx":
             rows = ";".join(self.row_tok(r, case["q"], 8) for r in case["rows"])
             return ["C13.gpx %d %s %s %s" % (case["srid"] == "GEO", hx(case["rfmt"]), hx(str(case["tid"])), rows)]
@@ -716,6 +1253,8 @@ class P(Prop):
             return ["C13.net %d %d %d %d %d %s" % (ord(case["sep"]), case["h"], case["hdrR"], case["q"], case["posdir"], es)]
         if k == "wkt":
             return ["C13.wkt %d %s" % (case["q"], "|".join("%d:%d" % (p[0], p[1]) for p in case["pts"]))]
+        if k == "wktp":
+            return ["C13.wktparse %s" % hx(case["text"])]
 
     @staticmethod
     def rrow(tok):
@@ -742,13 +1281,16 @@ class P(Prop):
             raise ValueError("bad-request")
         if k == "session":
             outs, i = [], 0
-            for op in case["ops"]:
+            for op in self.norm(case)["ops"]:
                 n = len(self.requests(op))
                 outs.append(self.decode(op, replies[i:i + n]))
                 i += n
             return {"ops": outs}
-        if k in ("tz", "kml"):
+        if k in ("tz", "kml", "setfmt"):
             return {}
+        if k == "reread":
+            ds = [self.decode({"kind": "time"}, [r]) for r in replies]
+            return {"text": ds[0]["text"], "backs": [d["back"] for d in ds]}
         if k == "gpxdir":
             return {"files": [self.decode({"kind": "gpx"}, [r]) for r in replies]}
         if k == "fix":
@@ -760,6 +1302,15 @@ class P(Prop):
         if k == "time":
             h, b = replies[0].split(" ")
             return {"text": unhx(h), "back": "value" if b == "none" else [int(v) for v in b.split(",")]}
+        if k == "csv" and case.get("more"):
+            one = {kk: v for kk, v in case.items() if kk != "more"}
+            ds = [self.decode(dict(one, rows=rows), [r]) for rows, r in zip([case["rows"]] + case["more"], replies)]
+            if any("werr" in d for d in ds):
+                return next(d for d in ds if "werr" in d)
+            return {"text": ds[0]["text"], "read": ds[0]["read"], "others": [{"text": d["text"], "read": d["read"]} for d in ds[1:]]}
+        if k == "wktp":
+            r = replies[0]
+            return {"read": r[4:] if r.startswith("err:") else [self.v3(t) for t in r[3:].split("|")]}
         text, r = self.split_wr(replies[0])
         if text is None:
             return {"werr": r.split(" ")[0][5:]}
@@ -768,7 +1319,12 @@ class P(Prop):
         else:
             body = r[3:]
             if k == "csv":
+                body, _, ab = body.partition(" A:")
                 read = [] if body == "_" else [self.rrow(t) for t in body.split(";")]
+                if ab:
+                    nb, _, vb = ab.partition("|")
+                    af = {"names": [] if nb == "_" else [unhx(t) for t in nb.split(",")],
+                          "vals": [[] for _ in read] if vb == "_" else [([] if t == "_" else [af_model(x) for x in t.split(",")]) for t in vb.split(";")]}
             elif k == "gpx":
                 read = [([] if t == "_" else [self.rrow(x) for x in t.split(";")]) for t in body.split("|")] if body != "_" else []
             elif k == "wkt":
@@ -786,18 +1342,25 @@ class P(Prop):
                     nodes.append([unhx(f[0]), self.v3(f[1])])
                 read = {"edges": edges, "nodes": nodes}
         out = {"text": text, "read": read}
+        if k == "csv" and case.get("read_all") and not isinstance(read, str):
+            out["af"] = af
         return out
 
     def compare(self, case, impl_out, model_out):
         k = case["kind"]
         if k == "session" and "err" not in impl_out:
-            for i, (op, io, mo) in enumerate(zip(case["ops"], impl_out["ops"], model_out["ops"])):
+            for i, (op, io, mo) in enumerate(zip(self.norm(case)["ops"], impl_out["ops"], model_out["ops"])):
+                if "err" in io:
+                    return "operation %d (%s) raised %s: %s" % (i, op["kind"], io["err"], io.get("detail"))
                 m = self.compare(op, io, mo)
                 if m:
                     return "operation %d (%s): %s" % (i, op["kind"], m)
             return None
-        if k in ("tz", "kml") and "err" not in impl_out:
+        if k in ("tz", "kml", "setfmt") and "err" not in impl_out:
             return None
+        if k == "reread" and "err" not in impl_out:
+            mine = {"text": impl_out["text"], "backs": impl_out["backs"]}
+            return None if mine == model_out else "impl=%s model=%s" % (str(mine)[:300], str(model_out)[:300])
         if k == "gpxdir" and "err" not in impl_out:
             if len(impl_out["files"]) != len(model_out["files"]):
                 return "number of files"
@@ -808,7 +1371,9 @@ class P(Prop):
             return None
         if "err" in impl_out:
             return "implementation raised %s outside the write/read calls: %s" % (impl_out["err"], impl_out.get("detail"))
-        if k in ("fix", "time"):
+        if k == "time":
+            impl_out = {"text": impl_out["text"], "back": impl_out["back"]}
+        if k in ("fix", "time", "wktp"):
             return None if impl_out == model_out else "impl=%s model=%s" % (str(impl_out)[:300], str(model_out)[:300])
         if "werr" in impl_out or "werr" in model_out:
             return None if impl_out.get("werr") == model_out.get("werr") else "writer: impl=%s model=%s" % (str(impl_out)[:200], str(model_out)[:200])
@@ -820,6 +1385,16 @@ class P(Prop):
             return "GPX metadata block is not the expected one"
         if impl_out["read"] != model_out["read"]:
             return "read back: impl=%s model=%s" % (str(impl_out["read"])[:300], str(model_out["read"])[:300])
+        for j, (fi, fm) in enumerate(zip(impl_out.get("others", []), model_out.get("others", []))):
+            if fi != fm:
+                return "file track_output_%d.csv: impl=%s model=%s" % (j + 1, str(fi)[:300], str(fm)[:300])
+        if len(impl_out.get("others", [])) != len(model_out.get("others", [])):
+            return "number of files written for the collection"
+        if impl_out.get("af") != model_out.get("af"):
+            return "read_all features: impl=%s model=%s" % (str(impl_out.get("af"))[:300], str(model_out.get("af"))[:300])
+        for j, rr in enumerate(impl_out.get("rereads", [])):
+            if rr != model_out["read"]:
+                return "read number %d of the same file: impl=%s model=%s" % (j + 2, str(rr)[:300], str(model_out["read"])[:300])
         return None
 
     # ------------------------------------------------------------------ oracle
@@ -837,7 +1412,7 @@ class P(Prop):
             return "time format is not read back with itself / is lossy"
         if ids["T"] != -1 and not FULL_CODES <= {c for kd, c in fmt_tokens(case["pfmt"]) if kd == "code"}:
             return "time format omits a field"
-        for r in case["rows"]:
+        for r in case["rows"] + [r for rows in case.get("more", []) for r in rows]:
             for v in r[:2]:
                 x = cval(v, case["q"])
                 d = 10 if case["srid"] == "GEO" else 3
@@ -845,6 +1420,15 @@ class P(Prop):
                     return "coordinate collides with the no-data sentinel"
         if case["sep"] in "0123456789.-+\n\r\"#" or case["sep"] in "".join(case.get("af_names", [])):
             return "separator occurs in numbers"
+        for row in case.get("afs", []):
+            for v in row:
+                t = str(af_py(v))
+                if t != t.strip() or t == "" or case["sep"] in t or "\n" in t or t.startswith("#"):
+                    return "a feature value is not one field of the line"
+        if case.get("read_all") and case["h"] == 0:
+            return "read_all takes the column names from the header block: a file written without it has none (the reader raises UnboundLocalError)"
+        if case.get("read_all") and any(nm in ("x", "y", "z", "t", "timestamp", "idx") for nm in case.get("af_names", [])):
+            return "a feature column has a name the track refuses"
         return None
 
     @staticmethod
@@ -879,6 +1463,7 @@ class P(Prop):
             # every round trip of the session must hold with the formats the session started with, and no library call may
             # leave the global read / print formats changed ("read back with the matching format" relies on it)
             leak = None
+            case = self.norm(case)
             for i, (op, o) in enumerate(zip(case["ops"], out["ops"])):
                 tag = "session %r, operation %d (%s)" % (case["fmt"], i, op["kind"])
                 if "err" in o:
@@ -890,12 +1475,25 @@ class P(Prop):
                     for name, what, b, c in o["leaks"]:
                         leak = " [operation %d (%s): %s left the global ObsTime %s format changed from %r to %r]" % (i, op["kind"], name, what, b, c)
                         break
-                    if leak is None and o["fmt_after"] != [case["fmt"], case["fmt"]]:
-                        leak = " [after operation %d (%s) the global ObsTime formats are %s, the session uses %r]" % (i, op["kind"], o["fmt_after"], case["fmt"])
+                    if leak is None and o["fmt_after"] != op["cur"]:
+                        leak = " [after operation %d (%s) the global ObsTime read / print formats are %s, the user set %s]" % (i, op["kind"], o["fmt_after"], op["cur"])
             if leak:
                 return "session %r:%s" % (case["fmt"], leak)
             return None
-        if k in ("tz", "kml"):
+        if k in ("tz", "kml", "setfmt"):
+            return None
+        if k == "reread":
+            # the text s is read under each format f in turn. Whenever s is the text the writer prints, under f, for a valid
+            # stamp t' (f lossless), the read under f is a read "with the matching format" of the written t': it must return t'
+            for f, back in zip(case["fmts"], out["backs"]):
+                if not fmt_is_lossless(f):
+                    continue
+                want = py_parse(f, out["text"])
+                if want is None or not valid_stamp(want) or py_print(f, want) != out["text"]:
+                    continue
+                if back != want:
+                    return "the text %r is what format %r prints for %s; read under %r (after reads under %s) it comes back as %s" % (
+                        out["text"], f, want, f, case["fmts"][:case["fmts"].index(f)], back)
             return None
         if k == "gpxdir":
             if out["nfiles"] != len(case["tracks"]):
@@ -928,10 +1526,23 @@ class P(Prop):
             if self.csv_domain(case) is not None:
                 return None
             if "werr" in out:
-                return "writeToFile raised %s" % out["werr"]
+                return "%s raised %s" % (case.get("front", "writeToFile"), out["werr"])
             ids = case["ids"]
-            return self.check_rows(case["rows"], out["read"], case["q"], case["srid"], "csv", ids["U"] != -1, ids["T"] != -1,
-                                   "CSV %s sep %r h=%d ids %s" % (case["srid"], case["sep"], case["h"], ids))
+            if case.get("more"):
+                if out.get("nfiles") != 1 + len(case["more"]) or len(out.get("others", [])) != len(case["more"]):
+                    return "writeToCsv(collection): %d tracks, %s files" % (1 + len(case["more"]), out.get("nfiles"))
+                for j, (rows, fo) in enumerate(zip(case["more"], out["others"])):
+                    m = self.check_rows(rows, fo["read"], case["q"], case["srid"], "csv", ids["U"] != -1, ids["T"] != -1,
+                                        "CSV collection file track_output_%d.csv sep %r h=%d ids %s" % (j + 1, case["sep"], case["h"], ids))
+                    if m:
+                        return m
+            for j, rd in enumerate([out["read"]] + out.get("rereads", [])):
+                m = self.check_rows(case["rows"], rd, case["q"], case["srid"], "csv", ids["U"] != -1, ids["T"] != -1,
+                                    "CSV %s sep %r h=%d ids %s time format %r%s" % (case["srid"], case["sep"], case["h"], ids, case["pfmt"],
+                                                                                  " (read number %d of the file)" % (j + 1) if j else ""))
+                if m:
+                    return m
+            return None
         if k == "gpx":
             if not fmt_is_lossless(case["rfmt"].rstrip("Z")) or not case["rfmt"].startswith(ISO_FMT):
                 return None
@@ -998,15 +1609,20 @@ class P(Prop):
             if len(ops) > 1:
                 # the last operation is kept: it is the round trip that shows the effect of what precedes it
                 for i in range(len(ops) - 1):
-                    yield dict(case, ops=ops[:i] + ops[i + 1:])
+                    yield self.norm(dict(case, ops=ops[:i] + ops[i + 1:]))
+                for i in range(1, len(ops)):
+                    yield self.norm(dict(case, ops=ops[:i]))
             def stamps(o):
                 return {tuple(r[3:10]) for r in o.get("rows", [])}
             for i, op in enumerate(ops):
                 for sm in self.shrink(op):
                     if i == len(ops) - 1 and not stamps(sm) <= stamps(op):
                         continue        # the timestamps of the final round trip are what a leaked format corrupts: keep them
-                    yield dict(case, ops=ops[:i] + [sm] + ops[i + 1:])
+                    yield self.norm(dict(case, ops=ops[:i] + [sm] + ops[i + 1:]))
             return
+        if k == "reread" and len(case["fmts"]) > 1:
+            for i in range(len(case["fmts"])):
+                yield dict(case, fmts=case["fmts"][:i] + case["fmts"][i + 1:])
         if k == "gpxdir":
             if len(case["tracks"]) > 1:
                 for i in range(len(case["tracks"])):
@@ -1021,8 +1637,12 @@ class P(Prop):
                 if "afs" in case:
                     c["afs"] = case["afs"][:i] + case["afs"][i + 1:]
                 yield c
-        if k == "csv" and case.get("af_names"):
+        if k in ("csv", "gpx") and case.get("af_names"):
             c = dict(case); c.pop("af_names"); c.pop("afs"); yield c
+        if k == "csv":
+            for key in ("nread", "mid_print", "more"):
+                if key in case:
+                    c = dict(case); c.pop(key); yield c
         if k in ("csv", "gpx"):
             for i, r in enumerate(case["rows"]):
                 for a in range(3):
